@@ -6,6 +6,7 @@ import (
 	"go/token"
 	"go/types"
 	"sort"
+	"strconv"
 	"strings"
 
 	"golang.org/x/tools/go/ssa"
@@ -30,7 +31,7 @@ func init() {
 	})
 	register("C11", &propDef{
 		Title: "Relative resolution stays inside the package and follows path algebra",
-		Rules: []func(*Checker){ruleC11Escape, ruleC11Same, ruleC11JoinOrder, ruleC06SubpathOnly("C11.local")},
+		Rules: []func(*Checker){ruleC11Escape, ruleC11Same, ruleC11JoinOrder, ruleC06SubpathOnly("C11.local"), ruleC11LocalForm},
 		NotDecided: []string{
 			"the path algebra itself (segment counting, composition of successive resolutions): path.Join / path.Clean are trusted library semantics",
 		},
@@ -831,6 +832,16 @@ func ruleC07Schemes(c *Checker) {
 	}
 }
 
+func trName(cl *ssa.Call) string {
+	if cl == nil {
+		return "?"
+	}
+	if o := calleeObj(cl); o != nil {
+		return o.FullName()
+	}
+	return "a call"
+}
+
 func ruleC07Query(c *Checker) {
 	const R = "C07.query"
 	c.rule(R, "The per-type query rules guard every acceptance: in the archive implementation every nil return lies past the passing edge of the 'checksum' rejection (unconditionally) and past either the archive-value test (tar.gz / tgz) or the path-suffix test (.tar.gz / .tgz); in the git implementation every nil return lies after the loop that rejects any key other than \"ref\" and repeated values. A rejecting test is an If one of whose edges leads only to error returns.", 5)
@@ -930,6 +941,46 @@ func ruleC07Query(c *Checker) {
 				c.check(guarded(r.Block(), cs), R, name, fmt.Sprintf("nil return %d past the checksum rejection", i), p.Pos(r.Pos()), "acceptance only when no 'checksum' argument is present", "an archive address carrying a 'checksum' argument can be accepted on this path")
 				c.check(guarded(r.Block(), arch), R, name, fmt.Sprintf("nil return %d past an archive-format test", i), p.Pos(r.Pos()), "acceptance only with a tar.gz/tgz archive argument or a .tar.gz/.tgz path", "an archive address can be accepted without a recognised archive format")
 			}
+			// the archive value is tested as it is kept: a test of a transformed copy (lower-cased, trimmed)
+			// accepts spellings that the normalisation below does not recognise
+			isSet := func(in ssa.Instruction) bool {
+				ci, ok := in.(ssa.CallInstruction)
+				if !ok {
+					return false
+				}
+				if o := calleeObj(ci); o == nil || o.Name() != "Set" {
+					return false
+				}
+				for _, a := range ci.Common().Args {
+					if s2, ok := constString(a); ok && s2 == "tgz" {
+						return true
+					}
+				}
+				return false
+			}
+			nt := 0
+			eachInstr(fn, func(in ssa.Instruction) {
+				bo, ok := in.(*ssa.BinOp)
+				if !ok || (bo.Op != token.EQL && bo.Op != token.NEQ) {
+					return
+				}
+				x, y := bo.X, bo.Y
+				if _, isC := x.(*ssa.Const); isC {
+					x, y = y, x
+				}
+				s2, ok := constString(y)
+				if !ok || (s2 != "tar.gz" && s2 != "tgz") {
+					return
+				}
+				nt++
+				cl, isCall := canon(x).(*ssa.Call)
+				transformed := isCall && !(calleeObj(cl) != nil && calleeObj(cl).Name() == "Get")
+				okT := !transformed
+				if transformed {
+					okT, _ = mustPassOK(bo, isSet, func(r *ssa.Return) bool { return !mayReturnNilErr(r) }, nil)
+				}
+				c.check(okT, R, name, fmt.Sprintf("archive value test %d on the value as kept", nt), p.Pos(bo.Pos()), "the query value itself is compared (or every acceptance past the test sets archive=tgz)", "the 'archive' value is tested on a transformed copy ("+trName(cl)+"), but the value kept in the URL is the original: spellings such as TGZ or Tar.Gz are accepted and never normalised to 'tgz' — several distinct package addresses for one archive")
+			})
 			// normalisation to tgz
 			norm := false
 			for _, ci := range callsIn(fn) {
@@ -947,6 +998,97 @@ func ruleC07Query(c *Checker) {
 }
 
 // ---------- C11 ----------
+
+// C11.localform — the resolver spells a local result the way the local-source
+// parser demands (writer/reader agreement on the trailing-slash cases).
+func ruleC11LocalForm(c *Checker) {
+	const R = "C11.localform"
+	c.rule(R, "Where a resolve function appends \"/\" to the joined local path before handing it to the local-source parser, it does so only on an exact string comparison of that joined path with one of the constants for which the parser's canonical form carries a trailing slash (read from the parser: the constants c it compares the cleaned path with and for which it has the literal c+\"/\"). Any wider condition (a test of path.Base, a suffix test) produces spellings such as ../../ that the parser refuses, so resolution against a local base fails for those results.", 2)
+	p := c.P
+	parser := p.Fn(addrPkg, "ParseLocalSource")
+	if parser == nil {
+		c.anchorMissing(R, "ParseLocalSource")
+		return
+	}
+	// the parser's table
+	lits := map[string]bool{}
+	eachInstr(parser, func(in ssa.Instruction) {
+		for _, op := range in.Operands(nil) {
+			if *op == nil {
+				continue
+			}
+			if s2, ok := constString(*op); ok {
+				lits[s2] = true
+			}
+		}
+	})
+	table := map[string]bool{}
+	eachInstr(parser, func(in ssa.Instruction) {
+		bo, ok := in.(*ssa.BinOp)
+		if !ok || bo.Op != token.EQL {
+			return
+		}
+		if s2, ok := constString(bo.Y); ok && lits[s2+"/"] {
+			if cl := callOf(canon(bo.X)); cl != nil && isFunc(calleeObj(cl), "path", "Clean") {
+				table[s2] = true
+			}
+		}
+	})
+	var tl []string
+	for k := range table {
+		tl = append(tl, strconv.Quote(k))
+	}
+	sort.Strings(tl)
+	c.check(len(table) > 0, R, p.FuncName(parser), "trailing-slash table", p.Pos(parser.Pos()), "the parser gives a trailing slash to: "+strings.Join(tl, ", "), "no comparison of the cleaned path with a constant whose slash-terminated form is a literal of the parser was found")
+	// the spelling sites: functions of the address package that hand a joined path to the parser
+	hosts := map[*ssa.Function]bool{}
+	for _, fn := range p.Funcs {
+		if fn == parser || fn.Pkg == nil || fn.Pkg.Pkg.Path() != parser.Pkg.Pkg.Path() {
+			continue
+		}
+		for _, ci := range callsIn(fn) {
+			if ci.Common().StaticCallee() == parser {
+				hosts[fn] = true
+				break
+			}
+		}
+	}
+	for _, fn := range sortedFuncs(hosts) {
+		name := p.FuncName(fn)
+		n := 0
+		eachInstr(fn, func(in ssa.Instruction) {
+			add, ok := in.(*ssa.BinOp)
+			if !ok || add.Op != token.ADD {
+				return
+			}
+			if s2, ok := constString(add.Y); !ok || s2 != "/" {
+				return
+			}
+			joined := false
+			for w := range p.backSlice(add.X, 0) {
+				if cl, ok := w.(*ssa.Call); ok && isFunc(calleeObj(cl), "path", "Join") {
+					joined = true
+				}
+			}
+			if !joined {
+				return
+			}
+			n++
+			match := func(v ssa.Value, op token.Token) bool {
+				bo, ok := v.(*ssa.BinOp)
+				if !ok || bo.Op != op {
+					return false
+				}
+				s2, ok := constString(bo.Y)
+				return ok && table[s2] && canon(bo.X) == canon(add.X)
+			}
+			eqT := anyTrueEdges(fn, func(v ssa.Value) bool { return match(v, token.EQL) })
+			_, neF := condEdges(fn, func(v ssa.Value) bool { return match(v, token.NEQ) })
+			c.check(guarded(add.Block(), append(eqT, neF...)), R, name, fmt.Sprintf("trailing slash %d", n), p.Pos(add.Pos()), "appended only when the joined path equals one of "+strings.Join(tl, ", "), "a trailing slash is appended to the joined local path on a condition other than an exact comparison with "+strings.Join(tl, " / ")+": results such as ../.. become ../../, which the local-source parser refuses as non-canonical — resolving against a local base fails for them")
+		})
+		_ = n
+	}
+}
 
 func resolveFuncs(p *Prog) []*ssa.Function {
 	var out []*ssa.Function
